@@ -21,7 +21,8 @@ LEVEL = "exploration"
 SHARDS = {"quick": 16, "thorough": 16}
 FLOOR = {"quick": 150, "thorough": 3000}
 REQUIRED_COUNTERS = ["tree_pairs_compared", "fresh_process_generations", "hash_seeds_distinct", "noop_reruns", "files_mtime_checked",
-                     "tamper_edit_checks", "tamper_delete_checks", "show_diffs_contract_evals", "explicit_core_layouts", "clock_shifted_runs", "prior_run_scenarios"]
+                     "tamper_edit_checks", "tamper_delete_checks", "show_diffs_contract_evals", "explicit_core_layouts", "clock_shifted_runs", "prior_run_scenarios",
+                     "spec_rewritten_in_place_scenarios"]
 RULE = ("clean documents biased to what makes order matter (many schemas/imports, several path variables, colliding operationIds, inline "
         "enums, streaming) x layouts (embedded default / explicit core) x PYTHONHASHSEED {0,1,2,random} x {fresh, warm, clock-shifted, "
         "other root} + non-force re-run + tampering; case = (document, layout, variant); non-trivial = the two executions compared "
@@ -179,6 +180,22 @@ def run_doc(ctx: Ctx, d: specgen.Doc, n: int, layout: tuple[str, str | None]) ->
             dd = diff_trees({k: v for k, v in base.items()}, {k: v for k, v in got.items()})
             if dd:
                 rec.violation(f"determinism:prior_run:{classify_changed(dd)}", feats, dict(case, variant="prior_run"), dd)
+    # the same spec PATH rewritten in place between two generations of one (warm) process: the second generation must be
+    # of the file's current content, i.e. equal to the tree obtained from the same document under another path
+    spec_rw = work / "spec-rewritten.json"
+    spec_rw.write_text(json.dumps(prev))
+    r1 = genrun.generate(prev, work / "rw-first", pkg, core, force=True, spec_path=spec_rw)
+    spec_rw.write_text(json.dumps(d.doc))
+    r2 = genrun.generate(d.doc, work / "rw-second", pkg, core, force=True, spec_path=spec_rw)
+    rec.count("spec_rewritten_in_place_scenarios")
+    rec.case(dict(case, variant="spec file rewritten in place, warm process"), nontrivial=True)
+    if r1.ok and r2.ok:
+        rec.count("tree_pairs_compared")
+        dd = diff_trees(base, digest(work / "rw-second", tops))
+        if dd:
+            rec.violation(f"determinism:spec_rewritten_in_place:{classify_changed(dd)}", feats, dict(case, variant="spec_rewritten"), dd)
+    elif r1.ok and not r2.ok:
+        rec.violation("determinism:spec_rewritten_in_place:generation_fails", feats, dict(case, variant="spec_rewritten"), (r2.error or "")[:200])
     # clock shifted
     root_c = work / "clock"
     rc = fresh(ctx, spec, root_c, pkg, core, "0", clock_shift=86400 * 400 + 12345)
